@@ -23,7 +23,11 @@ class C18(Prop):
                 # the zero-copy queues' payload accesses (the plain read / write of a pool slot) are not scheduling points of the lock-step
                 # runs: small, mostly full queues hammered by 4 free-running threads, judged by conservation + per-producer FIFO (oracle only)
                 Suite("zcq_stress", "", [zcqgen.mk_stress(impl, rng.choice([2, 2, 4]), 4, 20000, rng.randint(1, 10**6))
-                                          for impl in ("atomic_stress", "fullsync_stress") for _ in range(max(6, n // 25))], compare=False)]
+                                          for impl in ("atomic_stress", "fullsync_stress") for _ in range(max(6, n // 25))], compare=False),
+                # the same with 1 KiB payloads whose words all carry the value (an element made visible before - or while - its payload is
+                # written shows up as a torn or never-enqueued value), capacities 2-8 (oracle only)
+                Suite("zcq_stress_big_payload", "", [zcqgen.mk_stress(impl, rng.choice([2, 4, 8, 8]), 4, 20000, rng.randint(1, 10**6))
+                                          for impl in ("atomic_stress_big", "fullsync_stress_big") for _ in range(max(6, n // 25))], compare=False)]
     def oracle(self, case, recs):
         if case.meta.get("profile") == "stress": return zcqgen.oracle_stress(case, recs) if case.line.startswith("zcq") else stackgen.oracle_stress(case, recs)
         if "impl" in case.meta and case.line.startswith("zcq"): return zcqgen.oracle(case, recs)
